@@ -9,9 +9,10 @@ out = {"_comment": "Committed list of genuine defects of /repo that are recorded
                    "for an open entry whose witness reproduces; a fixed entry suppresses nothing.",
        "findings": []}
 ids = set()
-for frag in sorted((ROOT / "findings.d").glob("C*.json")):
+for frag in sorted((ROOT / "findings.d").glob("*.json")):
     for f in json.loads(frag.read_text()):
-        assert f["property"] == frag.stem, (frag, f["id"])
+        # Cnn.json fragments belong to one property; X_*.json fragments (coordinator) name the property per entry
+        assert f["property"] == frag.stem or frag.stem.startswith("X_"), (frag, f["id"])
         assert f["status"] in ("open", "fixed")
         assert (f["id"], f["property"]) not in ids
         ids.add((f["id"], f["property"]))
